@@ -189,6 +189,10 @@ def monopole(ctx):
             def outside(self, pos):
                 log.append(('outside', np.array(pos, dtype=object)))
                 return np.array([True, False, True])
+
+            def inside(self, pos):
+                log.append(('inside', np.array(pos, dtype=object)))
+                return np.array([False, True, False])
         copies = []
 
         def deepcopy(x):
@@ -438,6 +442,9 @@ def array(ctx):
     class Shape(PyStub):
         def outside(self, pos):
             return np.array([False, True, True])
+
+        def inside(self, pos):
+            return np.array([True, False, False])
     obj = SymObj(None, {'lineindex': 0, 'rcell': RC(), 'shift': SH, 'set_shift': lambda *a: None, 'set_systems': lambda b, d: log.append(('set_systems', b, d)),
                         'build_disl_array': lambda b, c, **k: (log.append(('build', b, np.array(c, dtype=object), k)) or disl), 'array_boundary': lambda box, w: (log.append(('array_boundary', box, w)) or Shape())}, 'self')
     def SymEvalPA():
